@@ -142,6 +142,7 @@ static nni_time deadline_at_submit;
 static int      ev_count, ev_timedout_early;
 
 static void sh_check_result(nng_err rv);
+static void note_final(nng_err rv);
 static void
 prov_cancel(nni_aio *aio, void *arg, nng_err rv)
 {
@@ -153,6 +154,7 @@ prov_cancel(nni_aio *aio, void *arg, nng_err rv)
 		if (rv == NNG_ETIMEDOUT && !(now_ > aio->a_expire || aio->a_expire == NNI_TIME_NEVER))
 			ev_timedout_early = 1;
 		sh_check_result(rv);
+		note_final(rv);
 		nni_aio_finish_error(aio, rv);
 		return;
 	}
@@ -169,6 +171,17 @@ static nni_time     sh_deadline = SH_NEVER; /* of the operation in flight */
 static int          sh_sleep;               /* operation in flight is a sleep */
 static nni_time     sh_wake = SH_NEVER;     /* when a sleep is due to report success */
 static int          early_timeout, early_wake, stale_code;
+/* the result an operation was completed with (provider completion, provider-side cancel, failed start);
+ * the callback must report exactly that: "a cancel, stop or timeout code is reported only if the
+ * operation had not already completed" */
+static int     final_set, result_changed;
+static nng_err final_rv;
+static void
+note_final(nng_err rv)
+{
+	final_set = 1;
+	final_rv  = rv;
+}
 static void
 sh_submit(void)
 {
@@ -199,6 +212,7 @@ op_submit(void)
 	if (stop_returned)
 		submits_after_stop++;
 	sh_submit();
+	final_set = 0;
 	nni_aio_reset(&A);
 	nni_mtx_lock(&prov_mtx);
 	if (!nni_aio_start(&A, prov_cancel, NULL)) {
@@ -217,6 +231,7 @@ op_complete(void)
 	if (prov_q == &A) {
 		prov_q = NULL;
 		nni_mtx_unlock(&prov_mtx);
+		note_final(0);
 		nni_aio_finish(&A, 0, 7);
 		return;
 	}
@@ -229,6 +244,9 @@ the_callback(void *arg)
 	(void) arg;
 	cb_runs++;
 	cb_result_seen = nni_aio_result(&A);
+	if (final_set && cb_result_seen != final_rv)
+		result_changed = 1;
+	final_set = 0;
 	if (sh_sleep) {
 		sh_check_result(cb_result_seen);
 		sh_sleep = 0;
@@ -292,7 +310,7 @@ run_op(char c)
 		break;
 	case 'a':
 		/* (an abort of an idle aio concerns no operation: the next one starts afresh) */
-		if (A.a_cancel_fn != NULL || cb_pending > 0)
+		if (A.a_cancel_fn != NULL)
 			aborted_in_flight = 1;
 		nni_aio_abort(&A, NNG_ECANCELED);
 		break;
@@ -453,6 +471,7 @@ harness(void)
 	CHECK(!early_timeout, "a timeout is never reported before the configured deadline (the last nng_aio_set_timeout / nng_aio_set_expire before the operation decides)");
 	CHECK(!early_wake, "a sleep never reports success before its duration has elapsed");
 	CHECK(!stale_code, "a cancel code is reported only by an operation that was cancelled while in flight");
+	CHECK(!result_changed, "the callback reports the result the operation was completed with: a cancel arriving after completion does not change it");
 	CHECK(!ev_timedout_early, "the expiry thread never cancels an operation before its own deadline");
 	CHECK(A.a_task.task_busy == 0 && cb_pending == 0, "no callback is left pending");
 	CHECK(nni_list_node_active(&A.a_expire_node) == 0, "a completed operation is not left on the expiry list");
@@ -512,6 +531,7 @@ harness(void)
 	CHECK(cb_runs == submissions, "every submission is completed exactly once: its callback runs once, never twice, never lost");
 	CHECK(!ev_timedout_early, "a timeout never fires before the configured duration has elapsed");
 	CHECK(cb_result_seen == 0 || cb_result_seen == NNG_ECANCELED || cb_result_seen == NNG_ETIMEDOUT || cb_result_seen == NNG_ESTOPPED, "the final result is success, the abort code, a timeout or stopped");
+	CHECK(!result_changed, "the callback reports the result the operation was completed with: a cancel arriving after completion does not change it");
 	CHECK(A.a_task.task_busy == 0 && cb_pending == 0, "no callback is left pending");
 	CHECK(nni_list_node_active(&A.a_expire_node) == 0, "a completed operation is not left on the expiry list");
 	CHECK(A.a_cancel_fn == NULL, "a completed operation has no cancel function left");
